@@ -35,6 +35,12 @@ impl Lowerer<'_, '_> {
     /// This function also checks whether the value needs to be cloned in the
     /// first place and does a more efficient operation if not.
     pub fn call_clone_of(&mut self, to: Location, from: Location, ty: TyRef) {
+        // A zero-sized value (e.g. a record with only `()` fields) has nothing
+        // to copy and its temporaries are never materialized.
+        if self.layout_of(ty).is_some_and(|l| l.size() == 0) {
+            return;
+        }
+
         match (to, from) {
             // This is a not-by-reference type so we'll just assign it.
             (Location::Var(to), Location::Var(from)) => {
